@@ -148,6 +148,9 @@ type Converter interface {
 	// F2: several unknown enum:map keys
 	ps = append(ps, c09Prog{name: "f_enumkeys", pkgs: []string{"./p"}, fails: true, note: "enum:map names several non-existent members",
 		files: map[string]string{"p/input.go": "package p\n\ntype A int\nconst ( A1 A = iota; A2 )\ntype B int\nconst ( B1 B = iota; B2 )\n\n// goverter:converter\n// goverter:enum:unknown @ignore\ntype Converter interface {\n\t// goverter:enum:map A1 B1\n\t// goverter:enum:map A2 B2\n\t// goverter:enum:map Nope1 B1\n\t// goverter:enum:map Nope2 B1\n\t// goverter:enum:map Nope3 B1\n\t// goverter:enum:map Nope4 B1\n\tConvert(source A) B\n}\n"}})
+	// F2b: several context names that do not exist
+	ps = append(ps, c09Prog{name: "f_ctxnames", pkgs: []string{"./p"}, fails: true, note: "goverter:context names several parameters that do not exist",
+		files: map[string]string{"p/input.go": "package p\n\ntype In struct{ V int }\ntype Out struct{ V int }\n\n// goverter:converter\ntype Converter interface {\n\t// goverter:context zeta\n\t// goverter:context mid\n\t// goverter:context alpha\n\t// goverter:context omega\n\t// goverter:context beta\n\tConvert(source In) Out\n}\n"}})
 	// F3: variables block with several invalid functions
 	ps = append(ps, c09Prog{name: "f_vars", pkgs: []string{"./p"}, fails: true, note: "variables block with several invalid signatures",
 		files: map[string]string{"p/input.go": "package p\n\ntype In struct{ V int }\ntype Out struct{ V int }\n\n// goverter:variables\nvar (\n\tZulu func(a In, b In) Out\n\tAlpha func() Out\n\tMike func(source In) (Out, string)\n\tEcho func(source In)\n\tKilo func(a, b, c In) Out\n)\n"}})
